@@ -1067,6 +1067,18 @@ def _atoms_for(e, t, tgt):
     return (e, ("ne", tuple(v for v, _ in t["v"])))
 
 
+def simplify_proj(e):
+    """`(a, b).1` -> b, recursively: projections of tuple / struct aggregates select the component."""
+    if not isinstance(e, tuple) or not e:
+        return e
+    e = tuple(simplify_proj(x) if isinstance(x, tuple) else x for x in e)
+    if e[0] == "proj" and isinstance(e[1], tuple) and e[1] and e[1][0] == "agg" and e[2] and isinstance(e[2][0], int) and e[2][0] < len(e[1][2]):
+        comp = e[1][2][e[2][0]]
+        rest = e[2][1:]
+        return simplify_proj(("proj", comp, rest)) if rest else comp
+    return e
+
+
 def resolve_env(e, env, depth=0):
     """Substitute path-local knowledge for opaque multi-definition locals inside an expression."""
     if not isinstance(e, tuple) or not e or depth > 12:
